@@ -414,6 +414,12 @@ func (c *checker) checkCase(idx int, m *dns.Msg, mt meta) {
 				fmt.Sprintf("first difference at offset %d (len got=%d want=%d)", off, len(got), len(ref.b)))
 		default:
 			r.Count("trypack_handled_equal", 1)
+			if len(got) == wire.VerifC15PackBufferSize {
+				r.Count("handled_packed_len_exactly_4096", 1)
+			}
+			if ulenSafe(pristine) == wire.VerifC15PackBufferSize {
+				r.Count("handled_uncompressed_len_exactly_4096", 1)
+			}
 			r.Count("size_"+sizeBucket(len(got)), 1)
 			r.Distinct(typeSet(m) + "|" + flagSig(m) + "|" + sizeBucket(len(got)) + "|" + mt.OptShape)
 			if len(m.Question) > 1 && m.Compress && len(m.Answer)+len(m.Ns)+len(m.Extra) == 0 {
@@ -456,6 +462,9 @@ func (c *checker) checkCase(idx int, m *dns.Msg, mt meta) {
 	default:
 		r.Count("trypack_declined", 1)
 		dc := declineClass(pristine, ref, mt)
+		if dc == "too_large" && ulenSafe(pristine) == wire.VerifC15PackBufferSize+1 {
+			r.Count("declined_uncompressed_len_exactly_4097", 1)
+		}
 		r.Count("declined_"+dc, 1)
 		if dc == "other" {
 			r.Sample(map[string]any{"unexplained_decline": rc.Summary, "index": idx, "phase": c.phase,
